@@ -171,6 +171,17 @@ def make_dim_fn(es, use):
             outs.append(jnp.concatenate([x, y], axis=0))
         elif use == "zeros":
             outs.append(jnp.zeros((x.shape[0], 2)) + x[:, :2])
+        # reshapes whose operand extent is a *derived* dimension (2*B, B+N): the target symbols are not dims of the operand
+        elif use == "concat_split":
+            outs.append(jnp.concatenate([x, x * 2.0], axis=0).reshape(2, x.shape[0], 3))
+        elif use == "stack_merge":
+            outs.append(jnp.stack([x, x * 2.0]).reshape(2 * x.shape[0], 3))
+        elif use == "tile_split":
+            outs.append(jnp.tile(x, (2, 1)).reshape(2, x.shape[0], 3)[1])
+        elif use == "concat_xy_reshape":
+            outs.append(jnp.concatenate([x, y], axis=0).reshape(x.shape[0] + y.shape[0], 3, 1))
+        elif use == "concat_cols_split":
+            outs.append(jnp.concatenate([x, x], axis=1).reshape(x.shape[0], 2, 3))
         return tuple(outs)
 
     return fn
@@ -255,7 +266,8 @@ def _work_dim(sh, acc):
     @settings(max_examples=sh["examples"], deadline=None, database=None, suppress_health_check=list(HealthCheck),
               phases=[Phase.generate], report_multiple_bugs=False)
     @given(st.lists(dexpr_strategy(), min_size=1, max_size=3),
-           st.sampled_from(["value", "value", "reshape", "arange", "broadcast", "outer", "flatten", "concat", "zeros", "nchw_value", "nchw_bcast"]))
+           st.sampled_from(["value", "value", "reshape", "arange", "broadcast", "outer", "flatten", "concat", "zeros", "nchw_value", "nchw_bcast", "concat_split",
+                            "stack_merge", "tile_split", "concat_xy_reshape", "concat_cols_split"]))
     def t(es, use):
         if not any(dexpr_uses(e, "B") or dexpr_uses(e, "N") for e in es):
             acc.count("trivial_const")
